@@ -63,3 +63,9 @@ def builder_state(pb):
             "aliases": [[a, n.name] for a, n in pb._aliases.items()],
             "defaults": [[k, v] for k, v in pb._default_connections.items()],
             "default": pb._default, "literals": lits}
+
+
+class NoCfgComp(Component):
+    """a component without configuration (C13: added to builders as a class and as an instance)"""
+    config: None
+    def __call__(self, x: int) -> int: return x + 1
